@@ -18,9 +18,9 @@ inductive Phase
   | start
   /-- the file header of the current sequence was read (by `PeekFileHeader` or `Next`) -/
   | header
-  /-- `PeekFileId` succeeded: `delivered` listener calls were made for the current sequence; `lost` = the peek
-  consumed bytes beyond the data window the header declares (what `Discard` leaves is then not comparable with a
-  fresh decoder's) -/
+  /-- `PeekFileId` succeeded: `delivered` listener calls were made for the current sequence; `lost` = the last record the
+  peek decoded overran the data window the header declares (a malformed sequence; what `Discard` leaves is then not
+  comparable with a fresh decoder's) -/
   | fileId (delivered : Nat) (lost : Bool)
   /-- a peek (or the header read of `Next`) failed on the current sequence: the error is sticky (C03) for everything
   but the demanded result of `Decode`, which stays what a fresh decoder returns for the sequence -/
@@ -73,7 +73,7 @@ def specDecodeAt (p : Spec) (d k : Nat) : Spec × Option (Out × List Event) :=
 def peekCount : Nat → St → Nat
   | 0, _ => 0
   | fuel + 1, s =>
-    if s.q.fileId.isNone then
+    if s.q.fileId.isNone ∧ s.q.cur < s.q.hdr.dataSize then
       match decodeMessage s with
       | .ok (s', _) => peekCount fuel s' + 1
       | _ => 0
@@ -151,33 +151,8 @@ def specRun : Spec → List Op → List (Option (Out × List Event))
     let (p', r) := specStep p op
     r :: specRun p' ops
 
-/-! ### known-finding classes (evaluated on the model's run) -/
+/-! ### known-finding classes (evaluated on the model's run): none is open (F08, F09, F10 are repaired in /repo) -/
 
-/-- `PeekFileId` attempts to read a record although the data window of the header is exhausted -/
-def peekPast : Nat → St → Bool
-  | 0, _ => false
-  | fuel + 1, s =>
-    if s.q.fileId.isNone then
-      decide (s.q.cur ≥ s.q.hdr.dataSize) ||
-        (match decodeMessage s with
-         | .ok (s', _) => peekPast fuel s'
-         | _ => false)
-    else false
-
-/-- F09: the operation is a `PeekFileId` that reads past the sequence -/
-def kfPeekPast (a : Api) : Op → Bool
-  | .peekFileId =>
-    a.d.q.err.isNone &&
-      (match headerOnce a.d with
-       | .ok s1 => peekPast (fuelOf s1) s1
-       | _ => false)
-  | _ => false
-
-def kfRun (_p : Spec) : Api → List Op → List String
-  | _, [] => []
-  | a, op :: ops =>
-    let here := if kfPeekPast a op then ["KF-C07-2"] else []
-    let rest := kfRun _p (step a op).1 ops
-    (here ++ rest).eraseDups
+def kfRun (_p : Spec) (_a : Api) (_ops : List Op) : List String := []
 
 end Fit.DecApi
